@@ -210,7 +210,17 @@ pub fn run(ctx: &Ctx, rep: &mut Report) {
         let text = render(&mut rng, &lines);
         rep.eval();
         let scenario = |t: &str| json!({"definition_index": di, "char_def": t});
-        let cc = match guard(|| CharacterCategory::from_reader(text.as_bytes())) {
+        // now and then a byte that is not UTF-8 inside a comment line somewhere in the file: the reader refuses such a
+        // file today; if it loads, it loads all of its definition lines
+        let mut bytes: Vec<u8> = text.as_bytes().to_vec();
+        if rng.chance(1, 16) {
+            let line_starts: Vec<usize> = std::iter::once(0).chain(text.match_indices('\n').map(|(i, _)| i + 1)).filter(|i| *i < text.len()).collect();
+            let at = *rng.pick(&line_starts);
+            let junk: &[u8] = b"# caf\xe9 \xff\n";
+            bytes.splice(at..at, junk.iter().cloned());
+            rep.count("definitions_with_a_non_utf8_comment", 1);
+        }
+        let cc = match guard(|| CharacterCategory::from_reader(&bytes[..])) {
             Ok(Ok(cc)) => cc,
             Ok(Err(e)) => {
                 rep.count("definitions_rejected", 1);
@@ -243,7 +253,7 @@ pub fn run(ctx: &Ctx, rep: &mut Report) {
         }
         // the same definition through the path-based loader (same path as for the previous definition)
         {
-            dir.write("char.def", &text);
+            dir.write_bytes("char.def", &bytes);
             match guard(|| CharacterCategory::from_file(&def_path)) {
                 Ok(Ok(cf)) => {
                     let mut probes: Vec<u32> = ANCHORS.to_vec();
